@@ -120,13 +120,13 @@ TrimDot(h) == IF h # <<>> /\ LastOf(h) = "." THEN DropLast(h) ELSE h
 
 StripHostPort(h) ==
   IF h = <<>> THEN h
-  ELSE IF ~Contains(h, ":") THEN TrimDot(h)
+  ELSE IF ~HasChar(h, ":") THEN TrimDot(h)
   ELSE LET c == LastIndex(h, ":") IN
        IF h[1] = "[" THEN
           LET e == Index(h, "]") IN
           IF e # 0 /\ e + 1 = c THEN TrimDot(SubSeq(h, 2, e - 1))     \* [v6]:port   (port may be empty)
           ELSE h
-       ELSE IF Index(h, ":") = c /\ ~Contains(h, "]") THEN TrimDot(Take(h, c - 1))   \* host:port
+       ELSE IF Index(h, ":") = c /\ ~HasChar(h, "]") THEN TrimDot(Take(h, c - 1))   \* host:port
        ELSE h
 
 \* The full lookup for one method's table T (a sequence of routes of that method).
@@ -156,7 +156,7 @@ SoundR(T, r, hostport, p) ==
        /\ \A i \in DOMAIN ws :
              /\ ParamVals(r)[i] # <<>>
              /\ ws[i].k = "par" =>
-                  ~Contains(ParamVals(r)[i], "/") /\ (i <= NumWild(HostToks(ts)) => ~Contains(ParamVals(r)[i], "."))
+                  ~HasChar(ParamVals(r)[i], "/") /\ (i <= NumWild(HostToks(ts)) => ~HasChar(ParamVals(r)[i], "."))
        /\ r.tsr => p # <<"/">>
 
 Sound(T, hostport, p) == SoundR(T, Lookup(T, hostport, p), hostport, p)
